@@ -131,6 +131,15 @@ class HSym:
         mem['fn'](self.it, o)
         return o
 
+    def bare_object(self, cls):
+        """an instance of a plain class whose constructor is not run (mode B: the fields are set to symbolic collections)"""
+        return I.Obj(cls)
+
+    def utensor(self, name, index):
+        """0-d tensor holding the value of an uninterpreted real function of an integer index (ghost: the i-th element of a sequence)"""
+        f = z3.Function(name, z3.IntSort(), z3.RealSort())
+        return Tensor((), [f(index if is_sym(index) else z3.IntVal(index))])
+
     def set_requires_grad(self, t, v):
         t.requires_grad = v if is_sym(v) else bool(v)
 
